@@ -611,6 +611,16 @@ func (p *pinner) isPinnedWithType(ctx context.Context, c cid.Cid, mode ipfspinne
 	case ipfspinner.Internal:
 		return "", false, nil
 	case ipfspinner.Indirect:
+		// A recursive root is not an indirect pin, even when it is also
+		// reachable from another recursive root (CheckIfPinnedWithType
+		// applies the same rule).
+		has, err := p.cidRIndex.HasAny(ctx, cidKey)
+		if err != nil {
+			return "", false, err
+		}
+		if has {
+			return "", false, nil
+		}
 	case ipfspinner.Any:
 		has, err := p.cidRIndex.HasAny(ctx, cidKey)
 		if err != nil {
